@@ -1,6 +1,6 @@
 CONSTANTS
   Defects = {"dn_type_path"}
-  Family = "names"
+  Family = "names_small"
   Deep = FALSE
 INIT Init
 NEXT Next
